@@ -568,7 +568,9 @@ def t_ty(t):
 def t_ret(r):
     if r[0] == 'r1':
         return t_ty(r[1])
-    return [('w', r[1]), ('p', '<')] + t_ty(r[2]) + [('p', ',')] + t_ty(r[3]) + [('p', '>')]
+    # `std::` is its own literal in the grammar: layout may separate it from `pair`
+    head = [('p', 'std::'), ('w', 'pair')] if r[1] == 'std::pair' else [('w', r[1])]
+    return head + [('p', '<')] + t_ty(r[2]) + [('p', ',')] + t_ty(r[3]) + [('p', '>')]
 
 
 def t_args(l):
@@ -723,7 +725,8 @@ def text(toks, r: random.Random = None, style: str = 'plain'):
             # a raw default must be separated from '=' by nothing special; '::' stays glued when it
             # belongs to the single literal 'std::' of a pair return (rendered as one word)
             need = (prev[0] == 'w' and k == 'w') or (prev[0] == 'w' and k == 'raw' and not t.startswith('<')) \
-                or (prev[0] == 'raw' and k == 'w')
+                or (prev[0] == 'raw' and k == 'w') \
+                or (prev[0] != 'raw' and k != 'raw' and (prev[1][-1].isalnum() or prev[1][-1] == '_') and (t[0].isalnum() or t[0] == '_'))
             if prev[0] == 'raw' and not prev[1].startswith('<') and style == 'comments':
                 out.append(r.choice(['', ' ', '\n', '\t ']))
             else:
